@@ -1,8 +1,8 @@
 """C14 -- numbers written on a schematic are the true circuit quantities: sign rule, accessor/unit pairing, option forwarding."""
 from __future__ import annotations
 import ast
-from ..api import A, spec, call_ref
-from ..terms import Evaluator, Poly, Rec, Cond, Opq, Comp, Ref, tkey, paths_of, term_equal, has_opaque, compare_terms, as_poly
+from ..api import A, spec, call_ref, bound_args
+from ..terms import Evaluator, Poly, Rec, Cond, Opq, Comp, Ref, tkey, paths_of, term_equal, has_opaque, compare_terms, as_poly, term_from_key
 from ..prog import params_of
 from ..report import AnalysisError
 from .c18 import si_tables
@@ -40,28 +40,34 @@ def run(rep, prog, tier):
             mem = prog.find_member(m, cls, f'get_{q}')
             if not mem:
                 rep.ob('R14.sign', f'{cname}.get_{q}', None, 'method missing', prog.site(m, cls)); continue
-            ev = Evaluator(prog); ev.opaque_fns |= opaque
+            ev = Evaluator(prog); ev.opaque_fns |= opaque; ev.self_class = (m, cls)       # private helpers of the adapter are followed
             args = [A('self'), A('name')] + ([A('reverse')] if q != 'potential' else [])
             t = ev.call_fn(mem[1], mem[0], args, {}, {'__parent__': None}, 1)
             site = prog.site(mem[0], mem[1])
-            at = t.as_atom() if isinstance(t, Poly) else None
-            if not (at and at[0] == 'call' and at[1][0] == 'fn'):
-                rep.ob('R14.sign', f'{cname}.get_{q}', None, f'does not end in a formatter call: {t!r:.120}', site); continue
-            fname = at[1][1]
-            fdef = disp.defs.get(fname)
-            pos = params_of(fdef)[0] if isinstance(fdef, ast.FunctionDef) else []
-            kw = dict(at[3])
-            for i, a in enumerate(at[2]):
-                if i < len(pos): kw[pos[i]] = a
+            # the formatter call on every path (a direction test hoisted out of the call is the same value as a conditional argument)
+            def leaf_call(l):
+                a_ = l.as_atom() if isinstance(l, Poly) else None
+                if not (isinstance(a_, tuple) and a_[0] == 'call' and a_[1][0] == 'fn'): return None
+                fdef_ = disp.defs.get(a_[1][1])
+                pos_ = params_of(fdef_)[0] if isinstance(fdef_, ast.FunctionDef) else []
+                kw_ = dict(a_[3])
+                for i, x in enumerate(a_[2]):
+                    if i < len(pos_): kw_[pos_[i]] = x
+                return a_[1][1], kw_, pos_
+            leaves = [leaf_call(l) for _, l in paths_of(t)]
+            if not leaves or any(l is None for l in leaves) or len({(l[0], tuple(sorted((k, v) for k, v in l[1].items() if k != 'value'))) for l in leaves}) != 1:
+                rep.ob('R14.sign', f'{cname}.get_{q}', None, f'does not end in one formatter call: {t!r:.120}', site); continue
+            fname, kw, pos = leaves[0]
+            def values(v):
+                if isinstance(v, Cond): return Cond(v.g, values(v.a), values(v.b))
+                k_ = leaf_call(v)[1].get('value')
+                return term_from_key(k_) if k_ is not None else Opq('?', 'no value')
+            got = values(t)
             # ---- sign
             X = ev.fresh().call_method(ev.getattr(A('self'), 'solution', m, 0), f'get_{q}', [A('name')], {}, m, 0)
             want = X if q == 'potential' else spec(ev, "-X if reverse else X", {'X': X, 'reverse': A('reverse')}, m)
-            got_key = kw.get('value')
-            c = None
-            if got_key is not None:
-                # compare keys: both are normal forms
-                c = True if got_key == tkey(want) else (None if 'opq' in repr(got_key) and "'?'" in repr(got_key) else False)
-            rep.ob('R14.sign', f'{cname}.get_{q}', c, f'formatter value = {_unkey(got_key)!r:.200}', site)
+            c = compare_terms(got, want)
+            rep.ob('R14.sign', f'{cname}.get_{q}', c, f'formatter value = {got!r:.200}', site)
             # ---- pairing: formatter and unit
             want_fmt = 'print_active_power' if (q == 'power' and cname == 'RealNetworkDiagramSolution') else fmt
             unit_ok = (kw.get('unit') == unit) if want_fmt != 'print_active_power' else True
@@ -89,44 +95,81 @@ def _unkey(k):
     return k
 
 
+def _bound(at, params):
+    """{parameter: argument key} of a call atom, positional arguments bound to the given parameter names"""
+    if not (isinstance(at, tuple) and len(at) == 4 and at[0] == 'call'): return None
+    out = dict(at[3])
+    for p_, a_ in zip(params, at[2]):
+        if p_ in out: return None
+        out[p_] = a_
+    if len(at[2]) > len(params): return None
+    return out
+
+
+def _atom(t):
+    return t.as_atom() if isinstance(t, Poly) else None
+
+
+LABELS = {'voltage': 'VoltageLabel', 'current': 'CurrentLabel', 'power': 'PowerLabel', 'potential': 'LabelNode'}
+
+
 def draw(rep, prog):
+    """draw_Q labels the element of the requested name with the text the solution gives for the SAME name and direction, and the arrow of the
+    label is drawn reverse XOR element.is_reverse -- read off the label constructor call each method returns"""
     m = prog.mod(DS); cls = m.defs.get('SchematicDiagramSolution')
     if not isinstance(cls, ast.ClassDef):
         rep.ob('R14.draw', 'SchematicDiagramSolution', None, 'class not found'); return
+    def run_(q, mem, rev, isrev=None):
+        ev = Evaluator(prog); ev.opaque_classes = set(getattr(ev, 'opaque_classes', ())) | set(LABELS.values())
+        selfv = Rec('SchematicDiagramSolution', {'diagram_parser': A('parser'), 'solution': A('solution')}, (m, cls))
+        elems = [_atom(spec(ev, src, {'parser': A('parser'), 'name': A('name')}, m)) for src in ('parser.get_element(name)', 'parser.get_element(name=name)')]
+        if isrev is not None:
+            for e_ in elems: ev.stores[(e_, 'is_reverse')] = isrev
+        params = params_of(mem[1])[0]
+        kw = {'reverse': rev} if 'reverse' in params[2:] else {}
+        t = ev.call_fn(mem[1], mem[0], [selfv, A('name')], kw, {'__parent__': None}, 1)
+        return ev, t, elems
     for q in ('voltage', 'current', 'power', 'potential'):
-        fn = next((x for x in cls.body if isinstance(x, ast.FunctionDef) and x.name == f'draw_{q}'), None)
-        if fn is None:
+        mem = prog.find_member(m, cls, f'draw_{q}')
+        if not mem:
             rep.ob('R14.draw', f'draw_{q}', None, 'method missing'); continue
-        calls = [n for n in ast.walk(fn) if isinstance(n, ast.Call) and ast.unparse(n.func) == f'self.solution.get_{q}']
-        site = prog.site(m, fn)
-        if not calls:
-            rep.ob('R14.draw', f'draw_{q}', False, f'does not query self.solution.get_{q}', site); continue
-        kw = {k.arg: ast.unparse(k.value) for k in calls[0].keywords}
-        pos = [ast.unparse(a) for a in calls[0].args]
-        name_ok = kw.get('name', pos[0] if pos else None) == 'name'
-        rev_ok = q == 'potential' or kw.get('reverse', pos[1] if len(pos) > 1 else None) == 'reverse'
-        elem = [n for n in ast.walk(fn) if isinstance(n, ast.Call) and ast.unparse(n.func) == 'self.diagram_parser.get_element']
-        el_ok = bool(elem) and (ast.unparse(elem[0].args[0]) if elem[0].args else None) == 'name'
-        rep.ob('R14.draw', f'draw_{q}', name_ok and rev_ok and el_ok, f'get_{q}({kw or pos}), element looked up by the same name: {el_ok}', site)
-        # arrow direction of the label: reverse XOR element.is_reverse
+        site = prog.site(mem[0], mem[1])
+        ev, t, elems = run_(q, mem, A('reverse'))
+        at = _atom(t)
+        if not (isinstance(at, tuple) and at[0] == 'call' and at[1] == ('cls', LABELS[q])):
+            rep.ob('R14.draw', f'draw_{q}', None, f'does not return a {LABELS[q]}: {t!r:.120}', site); continue
+        vals = list(at[2]) + [v for _, v in at[3]]
+        # the text of the label: solution.get_Q(name[, reverse])
+        texts = []
+        for v in vals:
+            try: va = _atom(term_from_key(v))
+            except Exception: va = None
+            if isinstance(va, tuple) and va[0] == 'call' and isinstance(va[1], tuple) and va[1][:2] == ('.', 'solution'):
+                texts.append(va)
+        if len(texts) != 1:
+            rep.ob('R14.draw', f'draw_{q}', False if not texts else None, f'does not label with exactly one value of the solution: {t!r:.160}', site); continue
+        ta = texts[0]
+        bound = _bound(ta, ['name', 'reverse'])
+        name_ok = bound is not None and ta[1][2] == f'get_{q}' and bound.get('name') == tkey(A('name'))
+        rev_ok = q == 'potential' or (bound is not None and bound.get('reverse') == tkey(A('reverse')))
+        el_ok = any(v == tkey(Poly.atom(e_)) for v in vals for e_ in elems) or (q == 'potential' and any(repr(e_) in repr(vals) for e_ in elems))
+        rep.ob('R14.draw', f'draw_{q}', bool(name_ok and rev_ok and el_ok), f'{ta[1][2]}({bound}), element looked up by the same name: {el_ok}', site)
+        # arrow direction of the label: reverse XOR element.is_reverse, decided on the four combinations
         if q in ('voltage', 'current'):
-            lab = [n for n in ast.walk(fn) if isinstance(n, ast.Call) and ast.unparse(n.func).endswith('Label')]
-            okd = False
-            if lab:
-                kwl = {k.arg: k.value for k in lab[0].keywords}
-                r = kwl.get('reverse')
-                el_name = None
-                for a_ in ast.walk(fn):
-                    if isinstance(a_, ast.Assign) and isinstance(a_.value, ast.Call) and ast.unparse(a_.value.func) == 'self.diagram_parser.get_element' and isinstance(a_.targets[0], ast.Name):
-                        el_name = a_.targets[0].id
-                okd = r is not None and el_name is not None and ast.unparse(r).replace(' ', '') in (
-                    f'reverseifnot{el_name}.is_reverseelsenotreverse', f'notreverseif{el_name}.is_reverseelsereverse', f'reverse!={el_name}.is_reverse', f'reverse^{el_name}.is_reverse')
-            rep.ob('R14.draw', f'draw_{q}:arrow', okd, 'label arrow = reverse XOR element.is_reverse', site)
+            res = []
+            for rev in (False, True):
+                for isrev in (False, True):
+                    _, t2, _ = run_(q, mem, rev, isrev)
+                    a2 = _atom(t2)
+                    got = dict(a2[3]).get('reverse') if isinstance(a2, tuple) and a2[0] == 'call' else None
+                    res.append(None if got not in (True, False) else (got == (rev != isrev)))
+            okd = False if False in res else (None if None in res else True)
+            rep.ob('R14.draw', f'draw_{q}:arrow', okd, f'label arrow = reverse XOR element.is_reverse on the four combinations: {res}', site)
 
 
 def constructors(rep, prog):
     m = prog.mod(DS); sm = prog.mod(SCH)
-    # each constructor forwards its options to the adapter and builds the solution from the translated circuit
+    # each constructor forwards its options to the adapter and builds the solution from the translated circuit -- read off the object it returns
     want = {
         'real_solution': ('RealNetworkDiagramSolution', 'DCSolution', {'precision': 'precision'}, {}),
         'complex_solution': ('ComplexNetworkDiagramSolution', 'ComplexSolution', {'precision': 'precision', 'polar': 'polar', 'deg': 'deg'}, {}),
@@ -138,16 +181,22 @@ def constructors(rep, prog):
         if not isinstance(fn, ast.FunctionDef):
             rep.ob('R14.draw', f'ctor:{fname}', None, 'constructor not found'); continue
         site = prog.site(m, fn)
-        ac = [n for n in ast.walk(fn) if isinstance(n, ast.Call) and ast.unparse(n.func) == adapter]
-        sc = [n for n in ast.walk(fn) if isinstance(n, ast.Call) and ast.unparse(n.func) == sol]
-        ok = bool(ac) and bool(sc)
-        detail = ''
+        ev = Evaluator(prog); ev.opaque_classes = set(getattr(ev, 'opaque_classes', ())) | {'ComplexSolution', 'DCSolution'}
+        ev.opaque_fns.add(('SimpleCircuit.DiagramTranslator', 'circuit_translator'))
+        pos = params_of(fn)[0]
+        t = call_ref(ev, m, fn, [A(p_) for p_ in pos[:1]], {p_: A(p_) for p_ in pos[1:]})
+        ad = t.f.get('solution') if isinstance(t, Rec) else None
+        if not isinstance(ad, Rec):
+            rep.ob('R14.draw', f'ctor:{fname}', None, f'adapter / solution construction not followed: {t!r:.120}', site); continue
+        sa = _atom(ad.f.get('solution'))
+        sb = bound_args(prog, sa) if isinstance(sa, tuple) and sa[0] == 'call' and sa[1][0] == 'cls' else None
+        circ = _atom(spec(ev, 'circuit_translator(schematic)', {'schematic': A('schematic')}, m))
+        ok = ad.cls == adapter and sb is not None and sa[1][1] == sol
         if ok:
-            akw = {k.arg: ast.unparse(k.value) for k in ac[0].keywords}
-            skw = {k.arg: ast.unparse(k.value) for k in sc[0].keywords}
-            ok = all(akw.get(k) == v for k, v in aopts.items()) and all(skw.get(k) == v for k, v in sopts.items()) and skw.get('circuit') == 'circuit_translator(schematic)'
-            detail = f'{adapter}({akw}) / {sol}({skw})'
-        rep.ob('R14.draw', f'ctor:{fname}', ok, detail or 'adapter / solution construction not found', site)
+            ok = all(tkey(ad.f.get(k)) == tkey(A(v)) for k, v in aopts.items()) and all(sb.get(k) == tkey(A(v)) for k, v in sopts.items()) and sb.get('circuit') == tkey(Poly.atom(circ))
+        pr = t.f.get('diagram_parser')
+        okp = isinstance(pr, Rec) and pr.cls == 'SchematicDiagramParser' and tkey(pr.f.get('drawing')) == tkey(A('schematic'))
+        rep.ob('R14.draw', f'ctor:{fname}', bool(ok and okp), f'{ad.cls}({ {k: ad.f.get(k) for k in aopts} }) / {sa[1][1] if sb is not None else sa}({sb})', site)
     for key, kn, vn in prog.table(SCH, 'solutions'):
         r = prog.resolve_expr(sm, vn)
         ok = bool(r and r[0] == 'func' and 'schematic' in params_of(r[2])[0])
